@@ -620,3 +620,48 @@ pub fn sample_index(len: usize, raw: u16) -> usize {
     // monotone mapping (shrinks well)
     ((raw as usize) * len) >> 16
 }
+
+// ------------------------------------------------------------------------------------------
+// histories before the judged calls (built with another orientation, drew, was re-oriented)
+
+fn op_fits(op: &DrawOp, lw: u32, lh: u32) -> bool {
+    let inside = |x: i64, y: i64| x >= 0 && y >= 0 && x < lw as i64 && y < lh as i64;
+    match op {
+        DrawOp::SetPixel { x, y, .. } => inside(*x as i64, *y as i64),
+        DrawOp::SetPixels { sx, sy, ex, ey, n, .. } => {
+            inside(*sx as i64, *sy as i64) && inside(*ex as i64, *ey as i64) && (*n as u64) <= (*ex as u64 - *sx as u64 + 1) * (*ey as u64 - *sy as u64 + 1)
+        }
+        DrawOp::DrawIter { pts, .. } => pts.iter().all(|(x, y)| inside(*x as i64, *y as i64)),
+        DrawOp::FillContiguous { rect, .. } | DrawOp::FillSolid { rect, .. } => {
+            rect.w > 0 && rect.h > 0 && inside(rect.x as i64, rect.y as i64) && inside(rect.x as i64 + rect.w as i64 - 1, rect.y as i64 + rect.h as i64 - 1)
+        }
+        DrawOp::Clear { .. } => true,
+    }
+}
+
+/// wrap generated programs into a history: another initial orientation, 0..2 drawing calls under it
+/// (one third of the time including a copy of the first judged call, so that the last window
+/// programmed before the re-orientation is the first one wanted after it), 0..2 intermediate
+/// orientations, a drawing call after some of the orientation changes
+pub fn history(prog: BoxedStrategy<crate::exec::ProgCase>) -> BoxedStrategy<crate::exec::HistCase> {
+    use crate::exec::{Hist, HistCase};
+    (prog, orient(), vec(orient(), 0..3), 0u8..3)
+        .prop_flat_map(|(p, first, via, echo)| {
+            let (lw0, lh0) = p.cfg.logical_size(first);
+            let m = p.cfg.w.min(p.cfg.h) as u32;
+            let n_mid = via.len() + 1;
+            (Just(p), Just(first), Just(via), Just(echo), vec(op_in(lw0, lh0, false), 0..3), vec(op_in(m, m, false), 0..=n_mid))
+        })
+        .prop_map(|(p, first, via, echo, mut pre, mid)| {
+            let (lw0, lh0) = p.cfg.logical_size(first);
+            if echo == 0 {
+                if let Some(op) = p.ops.first() {
+                    if op_fits(op, lw0, lh0) {
+                        pre.push(op.clone());
+                    }
+                }
+            }
+            HistCase { hist: Hist { first, pre, via, mid }, prog: p }
+        })
+        .boxed()
+}
